@@ -64,7 +64,7 @@ func netparseComponent(r *hx.Run) {
 	}
 	n := 1500
 	if r.Tier == "thorough" {
-		n = 30000
+		n = 120000
 	}
 	for i := 0; i < n; i++ {
 		switch rng.Intn(8) {
